@@ -37,6 +37,17 @@ PROPS = {
         technique="Lean 4 proof parametric in a codec law (reusing the C07 refinement lemmas) + differential correspondence through the real codecs",
         explanation="partial: codec law is a hypothesis; everything Set itself contributes is proved",
     ),
+    "C15": dict(
+        title="gerror: factories immutable; message/tag/source/stack compose lawfully",
+        lean_modules=["Properties.C15"],
+        harness=[dict(bin="h-gerrclone")],
+        trusted=[GO_TRUST % "h-gerrclone"],
+        assumptions=[],
+        level_text="wip",
+        level_note="wip",
+        technique="Lean 4 proof + differential correspondence",
+        explanation="wip",
+    ),
 }
 
 # properties not claimed, with the reason (kept current; see DESIGN.md)
